@@ -126,13 +126,10 @@ Section Solver.
                  | None => with_vals s v' lg
                  end, Raise e)
             | LDone v' x k lg =>
-                if max_iter o <=? 0
-                then (* `iteration` was never bound: status[t] is written, then UnboundLocalError *)
-                  (mkState v' (upd p x (status s)) (iters s) lg, Raise UnboundLocalError)
-                else
-                  let s' := stamp s v' p x k lg in
-                  if st_eqb x Failed && fail_raise o then (s', Raise NonConvergenceError)
-                  else (s', Ret (st_eqb x Solved))
+                (* `iteration = 0` precedes the loop (fix for finding #1), so max_iter <= 0 stamps F / 0 *)
+                let s' := stamp s v' p x k lg in
+                if st_eqb x Failed && fail_raise o then (s', Raise NonConvergenceError)
+                else (s', Ret (st_eqb x Solved))
             end
           end
       end
